@@ -768,11 +768,85 @@ def pre_build():
     return out
 
 
+ENTRY_CHILD = r"""
+import json, os, sys
+sys.path.insert(0, os.environ["EVO_TREE"])
+mode, app = sys.argv[1], sys.argv[2]
+overrides = json.loads(sys.argv[3])
+import numpy as np
+if mode == "prepare":
+    from evo.core.trajectory import PoseTrajectory3D
+    from evo.core import metrics
+    from evo.tools import file_interface as fi
+    from evo import main_ape
+    n = 6
+    xyz = np.cumsum(np.ones((n, 3)) * 0.25, axis=0)
+    q = np.tile([1.0, 0, 0, 0], (n, 1))
+    ts = np.arange(n, dtype=float)
+    a, b = PoseTrajectory3D(xyz, q, ts), PoseTrajectory3D(xyz + 0.125, q, ts)
+    fi.save_res_file("r1.zip", main_ape.ape(a, b, metrics.PoseRelation.translation_part))
+    fi.write_tum_trajectory_file("a.tum", a)
+    sys.exit(0)
+if mode == "settings":        # the values live in settings.json, no -c
+    import evo.main_config as mc
+    import evo.tools.settings as st
+    toks = []
+    for k, v in overrides.items():
+        toks += [k, json.dumps(v) if isinstance(v, bool) else str(v)]
+    mc.set_config(st.DEFAULT_PATH, toks)
+    sys.exit(0)
+# mode == "run": the real entry point, in the real order (import the command module, merge the -c file, run)
+from evo import entry_points
+argv = {"res": ["evo_res", "r1.zip", "--save_table", "table.out", "--no_warnings"],
+        "traj": ["evo_traj", "tum", "a.tum", "--save_table", "table.out", "--no_warnings"]}[app]
+if sys.argv[4] == "with-c":
+    argv += ["-c", "cfg.json"]
+sys.argv = argv
+getattr(entry_points, app)()
+"""
+
+
+def entry_point_stream(ctx):
+    """`-c` overrides matching package settings *for that run*: a settings key given in the -c file must have the same
+    effect on what the command writes as the same value stored in settings.json — through the real entry points
+    (fresh interpreter, real import order), for the settings that shape an output file"""
+    import subprocess
+    overrides = {"table_export_format": "json", "table_export_transpose": False}
+    for app in ("res", "traj"):
+        case = {"kind": "entry", "app": app, "overrides": overrides}
+        outs = {}
+        for how in ("with-c", "in-settings"):
+            d = tempfile.mkdtemp(prefix="c18_entry_")
+            env = dict(os.environ, HOME=d, EVO_TREE=str(core.REPO), MPLBACKEND="Agg", PYTHONPATH=str(core.REPO))
+            run = lambda *a: subprocess.run([sys.executable, "-W", "ignore", "-c", ENTRY_CHILD, *a], cwd=d, env=env,  # noqa: E731
+                                            capture_output=True, text=True, timeout=300)
+            try:
+                p = run("prepare", app, "{}")
+                if p.returncode:
+                    raise core.ToolError("entry stream: preparation failed: " + p.stderr[-300:])
+                Path(d, "cfg.json").write_text(json.dumps(overrides))
+                if how == "in-settings":
+                    run("settings", app, json.dumps(overrides))
+                p = run("run", app, "{}", "with-c" if how == "with-c" else "plain")
+                f = Path(d, "table.out")
+                outs[how] = f.read_text() if f.exists() else f"<no table written: exit {p.returncode}: {p.stderr[-200:]}>"
+            finally:
+                import shutil
+                shutil.rmtree(d, ignore_errors=True)
+        if outs["with-c"] != outs["in-settings"]:
+            ctx.fail(case, "config-overrides-package-settings-for-the-run",
+                     f"evo_{app} --save_table with {overrides} given by -c writes {outs['with-c'][:70]!r}, with the same values "
+                     f"in settings.json {outs['in-settings'][:70]!r}")
+        ctx.count("branch", "entry-point:" + app)
+        ctx.record(case, True)
+
+
 def check(ctx):
     lean = core.lean_side(ctx.prop, ctx.tier, pre_build=pre_build)
     core.drift(ctx, MODELLED)
     cases = list(gen_cases(ctx))
     evaluate(ctx, cases)
+    entry_point_stream(ctx)
     core.shrink_all(ctx, shrink, evaluate, budget=60)
     return core.finish(
         ctx, lean, rule=RULE,
